@@ -792,15 +792,15 @@ fn is_prefix<T: PartialEq>(a: &[T], b: &[T]) -> bool {
 
 /// Fault positions (1-based call indices) to enumerate: every call when
 /// there are at most 400 of them; for longer runs (the > 64 KiB stream class
-/// read or written in tiny pieces) the first 24, the last 24 and about 24
+/// read or written in tiny pieces) the first 10, the last 10 and about 10
 /// evenly spaced calls in between, so that one case stays linear in the
 /// stream length.
 fn fault_points(calls: usize) -> Vec<usize> {
     if calls <= 400 {
         return (1..=calls).collect();
     }
-    let stride = std::cmp::max(1, (calls - 48) / 24);
-    (1..=24).chain((25..=calls - 24).step_by(stride)).chain(calls - 23..=calls).collect()
+    let stride = std::cmp::max(1, (calls - 20) / 10);
+    (1..=10).chain((11..=calls - 10).step_by(stride)).chain(calls - 9..=calls).collect()
 }
 
 fn c18_check(case: &Case, ctx: &mut Ctx) -> Result<(), String> {
@@ -925,7 +925,9 @@ fn c18_check(case: &Case, ctx: &mut Ctx) -> Result<(), String> {
                 // every position near the start/end and a stride in between
                 // (at most ~40 points in between for very long outputs)
                 let stride = std::cmp::max(7, (total - 64) / 40);
-                (0..32).chain((32..total - 32).step_by(stride)).chain(total - 32..total).collect()
+                let edge = if total > 20_000 { 10 } else { 32 };
+                let stride = if total > 20_000 { (total - 64) / 10 } else { stride };
+                (0..edge).chain((32..total - 32).step_by(stride)).chain(total - edge..total).collect()
             }
         }
     };
@@ -1008,7 +1010,7 @@ fn c18_strategy(_tier: Tier) -> BoxedStrategy<Case> {
 pub const C18: PropDef = PropDef {
     id: "C18",
     rule: "C07/C08 generators with shorter streams; for each generated (stream, read schedule, buffer spare, replacement table, writer chunking) the fault-free run is executed first to learn the number of read calls R and write calls W and the output length, \
-then EVERY fault position is injected (all of them when a run makes at most 400 calls, which is every case except the rare > 64 KiB stream class read in tiny pieces; there the first 24, the last 24 and about 24 evenly spaced calls): read failure at call k for k in 1..=R (match iterator, table replacement, closure replacement; the error kind cycles through ConnectionReset / Interrupted / UnexpectedEof / WouldBlock / Other with k; for Interrupted either reporting it or retrying with the complete fault-free result is accepted), write failure at call k in 1..=W, a writer that accepts exactly n bytes then fails for every n (all n if output <= 96 bytes, else first/last 32 and every 7th, at most ~40 in between), and the closure failing at match j. \
+then EVERY fault position is injected (all of them when a run makes at most 400 calls, which is every case except the rare > 64 KiB stream class read in tiny pieces; there the first 10, the last 10 and about 10 evenly spaced calls): read failure at call k for k in 1..=R (match iterator, table replacement, closure replacement; the error kind cycles through ConnectionReset / Interrupted / UnexpectedEof / WouldBlock / Other with k; for Interrupted either reporting it or retrying with the complete fault-free result is accepted), write failure at call k in 1..=W, a writer that accepts exactly n bytes then fails for every n (all n if output <= 96 bytes, else first/last 32 and every 7th, at most ~40 in between; first/last 10 and ~10 in between above 20 000 bytes), and the closure failing at match j. \
 Oracle: nothing panics; the injected error kind surfaces (one trailing Some(Err) item, resp. the returned Err); matches before it are a prefix of the fault-free sequence; bytes written are a prefix of the fault-free output (exactly the first n for the byte-limited writer); the iterator never ends before the reader returned Ok(0). \
 The long-pattern scenarios of C07 (L up to 1 MiB + 4097 at the default capacity) are re-run with a read failure at the last, second-to-last and middle read call. evaluations counts generated cases; the counter faults_injected counts fault runs. \
 Non-trivial = at least one fault was injected after a buffer roll, or between the two reads that a match spans. Distinct = distinct case fingerprint.",
